@@ -286,6 +286,10 @@ def run(env):
             continue
         run_one(env, t, label, nopts=1 if env.quick() else 2, ndata=30)
     env.counters["small_space"] = len(small)
+    for i, (label, build) in enumerate(gen_types.directed_shapes()):
+        if i % env.nshards == env.shard:
+            run_one(env, build(gen_types.Gen(rng, max_depth=2)), "directed:" + label, nopts=2, ndata=40)
+            env.count("directed_shape_programs")
     # ---- part B: random programs
     n = env.n(9000, 150000)
     for j in range(n):
